@@ -210,7 +210,9 @@ namespace verif
     struct guard_state
     {
         sigjmp_buf            jmp;
+        sigjmp_buf            outer_jmp; // fallback region around a whole harness step (see VERIF_OUTER_GUARDED)
         volatile sig_atomic_t active   = 0;
+        volatile sig_atomic_t outer_active = 0;
         volatile u64          seq      = 0; // incremented for every guarded region
         volatile u64          seen_seq = 0; // timer: sequence number seen at last tick
         volatile int          ticks    = 0; // ticks the current region has been running
@@ -228,14 +230,19 @@ namespace verif
         auto& g = guard();
         if (sig == SIGPROF)
         {
-            if (!g.active)
+            if (!g.active && !g.outer_active)
                 return;
             if (g.seen_seq == g.seq)
             {
                 if (++g.ticks >= g.hang_ticks)
                 {
-                    g.active = 0;
-                    siglongjmp(g.jmp, OUT_HUNG);
+                    if (g.active)
+                    {
+                        g.active = 0;
+                        siglongjmp(g.jmp, OUT_HUNG);
+                    }
+                    g.outer_active = 0;
+                    siglongjmp(g.outer_jmp, OUT_HUNG);
                 }
             }
             else
@@ -250,6 +257,11 @@ namespace verif
             g.active = 0;
             siglongjmp(g.jmp, OUT_CRASHED);
         }
+        if (g.outer_active)
+        {
+            g.outer_active = 0;
+            siglongjmp(g.outer_jmp, OUT_CRASHED);
+        }
         signal(sig, SIG_DFL);
         raise(sig);
     }
@@ -261,6 +273,11 @@ namespace verif
         {
             g.active = 0;
             siglongjmp(g.jmp, kind);
+        }
+        if (g.outer_active)
+        {
+            g.outer_active = 0;
+            siglongjmp(g.outer_jmp, kind);
         }
         std::fprintf(stderr, "verif: abort outside guarded region (kind %d)\n", kind);
         std::_Exit(70);
@@ -313,6 +330,29 @@ namespace verif
             outvar = rc__;                                                                         \
     } while (0)
 
+// fallback region around a whole harness step (library calls inside it still use VERIF_GUARDED): used by the explorer only
+// for histories that continue behind a violation of another property's monitor, where harness code that trusts the
+// library (getters outside guarded regions) may crash on the broken state
+#define VERIF_OUTER_GUARDED(outvar, body)                                                          \
+    do                                                                                             \
+    {                                                                                              \
+        auto& g__ = ::verif::guard();                                                              \
+        g__.seq   = g__.seq + 1;                                                                   \
+        int rc__  = sigsetjmp(g__.outer_jmp, 1);                                                   \
+        if (rc__ == 0)                                                                             \
+        {                                                                                          \
+            g__.outer_active = 1;                                                                  \
+            body;                                                                                  \
+            g__.outer_active = 0;                                                                  \
+            outvar           = ::verif::OUT_OK;                                                    \
+        }                                                                                          \
+        else                                                                                       \
+        {                                                                                          \
+            g__.active = 0;                                                                        \
+            outvar     = rc__;                                                                     \
+        }                                                                                          \
+    } while (0)
+
 } // namespace verif
 
 // link with -Wl,--wrap=abort
@@ -320,7 +360,7 @@ extern "C" void __real_abort(void);
 #ifndef VERIF_NO_WRAP_ABORT_DEF
 extern "C" void __wrap_abort(void)
 {
-    if (verif::guard().active)
+    if (verif::guard().active || verif::guard().outer_active)
         verif::guard_escape(verif::OUT_ABORTED);
     __real_abort();
     for (;;)
